@@ -824,7 +824,7 @@ def abbreviate(rng, tr):
 
 
 FACET_MODES = ['f_trcl_num', 'f_trcl_inline', 'f_trcl_star', 'f_trcl_inline3',
-               'f_fill_tr', 'f_fill_star']
+               'f_fill_tr', 'f_fill_star', 'f_fill_trcl', 'f_fill_trcl_num']
 
 
 def gen_facet_deck(rng, mode):
@@ -852,11 +852,22 @@ def gen_facet_deck(rng, mode):
         origin = gen_origin(rng)
         spec = {'O': tuple(origin), 'B': None, 'star': False, 'print': origin}
     transforms = {}
-    if mode in ('f_fill_tr', 'f_fill_star'):
+    if mode in ('f_fill_tr', 'f_fill_star', 'f_fill_trcl', 'f_fill_trcl_num'):
+        filled = {'id': 1, 'mat': 0, 'rho': None, 'expr': ('s', -20),
+                  'imp': {'n': 1}, 'u': 0, 'fill': {'u': 1, 'tr': spec}}
+        if mode == 'f_fill_trcl':
+            # FILL without a transformation + TRCL on the filled cell: its
+            # boundary AND the universe inside move together
+            filled['fill'] = {'u': 1, 'tr': None}
+            filled['trcl'] = spec
+        elif mode == 'f_fill_trcl_num':
+            filled['fill'] = {'u': 1, 'tr': None}
+            filled['trcl'] = ('num', 7)
+            transforms[7] = spec
         cells = [
-            {'id': 1, 'mat': 0, 'rho': None, 'expr': ('s', -20),
-             'imp': {'n': 1}, 'u': 0, 'fill': {'u': 1, 'tr': spec}},
-            {'id': 2, 'mat': 0, 'rho': None, 'expr': ('s', 20),
+            filled,
+            {'id': 2, 'mat': 0, 'rho': None,
+             'expr': ('#c', 1) if 'trcl' in filled else ('s', 20),
              'imp': {'n': 0}, 'u': 0},
             {'id': 3, 'mat': 0, 'rho': None, 'expr': expr, 'imp': {'n': 1},
              'u': 1},
@@ -955,10 +966,22 @@ def collect_refs(expr, out):
             collect_refs(sub, out)
 
 
-def check_deck(deck, rng, n_points):
+# the converter's option sets that change HOW cells are assembled (inlining
+# of filled / filling cells, de-duplication), never WHAT region a cell is
+OPTION_SETS = [
+    [],
+    ['--always-inline-filling'],
+    ['--always-inline-filled'],
+    ['--always-inline-filling', '--always-inline-filled'],
+    ['--skip-deduplication'],
+    ['--skip-deduplication', '--always-inline-filling'],
+]
+
+
+def check_deck(deck, rng, n_points, opts=()):
     '''Returns (status, detail): 'ok' | 'rejected' | 'mismatch'.'''
     text = render(deck)
-    conv = impl.convert(text)
+    conv = impl.convert(text, list(opts))
     if not conv.ok or conv.text is None:
         return 'rejected', f'{conv.exc}: {conv.msg[:160]}', text
     try:
@@ -1045,6 +1068,15 @@ CORPUS.update({
         '*tr12 0 0 0 0 90 90 90 100 10 90 170 100\n',
 })
 
+CORPUS.update({
+    # a filled cell with TRCL: the boundary and the universe inside move
+    # together, under every inlining option (seeded C04_G)
+    'fill_with_trcl':
+        'FILL with TRCL\n1 0 -20 fill=1 trcl=(2 0 0 0 1 0 -1 0 0 0 0 1) imp:n=1\n'
+        '2 0 #1 imp:n=0\n3 0 -30 u=1 imp:n=1\n4 0 30 u=1 imp:n=1\n\n'
+        '20 so 4\n30 s 1.5 0.5 0 1\n\n',
+})
+
 # decks that MUST be rejected (m = -1 on a TR card used by a surface)
 MUST_REJECT = {
     'tr_card_m_minus_one':
@@ -1055,6 +1087,19 @@ MUST_REJECT = {
 WITNESSES = {}      # no open class
 
 WITNESS_DECKS = {
+    'fill_with_trcl': {
+        'cells': [{'id': 1, 'mat': 0, 'expr': ('s', -20), 'imp': {'n': 1},
+                   'fill': {'u': 1, 'tr': None},
+                   'trcl': {'O': (2, 0, 0),
+                            'B': [0, 1, 0, -1, 0, 0, 0, 0, 1]}},
+                  {'id': 2, 'mat': 0, 'expr': ('#c', 1), 'imp': {'n': 0}},
+                  {'id': 3, 'mat': 0, 'expr': ('s', -30), 'imp': {'n': 1},
+                   'u': 1},
+                  {'id': 4, 'mat': 0, 'expr': ('s', 30), 'imp': {'n': 1},
+                   'u': 1}],
+        'surfaces': [{'id': 20, 'mn': 'so', 'params': [4.0]},
+                     {'id': 30, 'mn': 's', 'params': [1.5, 0.5, 0.0, 1.0]}],
+        'transforms': {}},
     'star_tr_displacement_only': {
         'cells': [{'id': 1, 'mat': 0, 'expr': ('s', -1), 'imp': {'n': 1}},
                   {'id': 2, 'mat': 0, 'expr': ('*', ('s', 1), ('s', -2)),
@@ -1184,9 +1229,9 @@ WITNESS_DECKS = {
 }
 
 
-def witness_fails(cls, rng):
+def witness_fails(cls, rng, opts=()):
     '''Replay the witness of an open class; (still_failing, description).'''
-    conv = impl.convert(WITNESSES.get(cls) or CORPUS[cls])
+    conv = impl.convert(WITNESSES.get(cls) or CORPUS[cls], list(opts))
     if not conv.ok or conv.text is None:
         return True, f'{conv.exc}: {conv.msg[:120]}'
     ref = WITNESS_DECKS.get(cls)
@@ -1257,13 +1302,18 @@ def run_body(res, rng, quick, seed):
                           {'input': {'deck': WITNESSES[cls]}}, cls=cls,
                           found_input=True)
     for name in sorted(CORPUS):
-        failing, what = witness_fails(name, random.Random(seed + 2))
-        res.count(f'corpus:{name}:{"fails" if failing else "passes"}')
-        if failing:
-            res.violation('impl-violation', f'corpus deck {name} (repaired '
-                          f'defect) fails again: {what}',
-                          {'input': {'deck': CORPUS[name]}}, cls=None,
-                          found_input=True)
+        # every corpus deck under the default options and under the inlining
+        # option sets (the region of a cell does not depend on them)
+        for opts in OPTION_SETS[:4]:
+            failing, what = witness_fails(name, random.Random(seed + 2), opts)
+            tag = ' '.join(opts) or 'default'
+            res.count(f'corpus:{name}:{"fails" if failing else "passes"}')
+            if failing:
+                res.violation('impl-violation', f'corpus deck {name} '
+                              f'(options: {tag}) fails: {what}',
+                              {'input': {'deck': CORPUS[name],
+                                         'options': list(opts)}}, cls=None,
+                              found_input=True)
 
     for name, (text, exc) in sorted(MUST_REJECT.items()):
         conv = impl.convert(text)
@@ -1310,6 +1360,9 @@ def run_body(res, rng, quick, seed):
                                                    Surface(2))))
         except (AttributeError, ImportError, TypeError) as exc:
             skipped(res, f'direct apply_trcl call: {exc}')
+    if recorder.errors:
+        skipped(res, f'apply_trcl recorder: {recorder.errors} records lost '
+                '(internal representation not readable)')
     if recorder.active:
         tie_pot(res, recorder.records)
     else:
@@ -1341,9 +1394,12 @@ def guarded(res, label, helper_level, fun, *args):
     property failure: helper-level ties are skipped (recorded in the
     evidence), ties on functions the anchors name become an undischarged
     obligation without a failing input.'''
+    harness_side = (AttributeError, ImportError, TypeError, KeyError,
+                    IndexError) if helper_level else (AttributeError,
+                                                      ImportError)
     try:
         return fun(*args)
-    except (AttributeError, ImportError) as exc:
+    except harness_side as exc:
         if helper_level:
             skipped(res, f'helper-level tie {label}: {exc}')
             return None
@@ -1690,31 +1746,47 @@ def tie_lattice(res, rng, n):
     orig_comp = CC.compose_transform
     rec, calls = [], []
 
+    rec_errors = []
+
     def comp(t1, t2):
         out = orig_comp(t1, t2)
-        calls.append(([float(v) for v in t1], [float(v) for v in t2],
-                      [float(v) for v in out]))
+        try:
+            calls.append(([float(v) for v in t1], [float(v) for v in t2],
+                          [float(v) for v in out]))
+        except Exception as exc:      # pylint: disable=broad-except
+            rec_errors.append(repr(exc))
         return out
 
     def dev(self, key):
-        cell = self.dic_cell_mcnp[key]
         pairs = []
 
         def ctr(slf, k, tr, cache=True):
             new_key = orig_ct(slf, k, tr, cache=cache)
-            if k == key and not cache:
-                pairs.append((new_key, [float(v) for v in tr]))
+            try:
+                if k == key and not cache:
+                    pairs.append((new_key, [float(v) for v in tr]))
+            except Exception as exc:  # pylint: disable=broad-except
+                rec_errors.append(repr(exc))
             return new_key
-        filltr = [float(v) for v in cell.filltr] if cell.filltr else []
-        trcls = [[float(v) for v in t] for t in (cell.trcl or [])]
+        try:
+            cell = self.dic_cell_mcnp[key]
+            filltr = [float(v) for v in cell.filltr] if cell.filltr else []
+            trcls = [[float(v) for v in t] for t in (cell.trcl or [])]
+        except Exception as exc:      # pylint: disable=broad-except
+            rec_errors.append(repr(exc))
+            return orig_dev(self, key)
         CC.CellConversion.cell_transform = ctr
         try:
             orig_dev(self, key)
         finally:
             CC.CellConversion.cell_transform = orig_ct
-        for new_key, tr in pairs:
-            rec.append((filltr, trcls, tr[:3],
-                        [float(v) for v in self.dic_cell_mcnp[new_key].filltr]))
+        try:
+            for new_key, tr in pairs:
+                rec.append((filltr, trcls, tr[:3],
+                            [float(v) for v in
+                             self.dic_cell_mcnp[new_key].filltr]))
+        except Exception as exc:      # pylint: disable=broad-except
+            rec_errors.append(repr(exc))
     CC.compose_transform = comp
     CC.CellConversion.develop_lattice = dev
     decks = []
@@ -1734,6 +1806,9 @@ def tie_lattice(res, rng, n):
         CC.compose_transform = orig_comp
         CC.CellConversion.develop_lattice = orig_dev
         CC.CellConversion.cell_transform = orig_ct
+    if rec_errors:
+        skipped(res, f'develop_lattice recorder: {len(rec_errors)} records '
+                f'lost ({rec_errors[0][:80]})')
     # independent oracle: the element's fill transformation, as an MCNP point
     # map, is "fill transformation (else TRCL), then translate to the element"
     for (filltr, trcls, transl, out), text in zip(rec, decks):
@@ -1792,6 +1867,7 @@ class PotRecorder:
     def __init__(self):
         self.records = []
         self.active = False
+        self.errors = 0
 
     def __enter__(self):
         from t4_geom_convert.Kernel.Volume import CellConversion as CC
@@ -1803,21 +1879,31 @@ class PotRecorder:
         rec = self
 
         def wrapped(conv, trcls, geometry):
-            before = rec.snapshot(conv, geometry)
-            key0 = conv.new_surf_key
+            # the recording reads internal attributes of the converter: it
+            # must never disturb the conversion it observes
+            try:
+                before = rec.snapshot(conv, geometry)
+                key0 = conv.new_surf_key
+            except Exception:     # pylint: disable=broad-except
+                before = None
+                rec.errors += 1
             out = rec.orig(conv, trcls, geometry)
-            if before is not None and trcls:
-                news = []
-                ok = True
-                for k in range(conv.new_surf_key, key0, -1):
-                    entry = rec.entry(conv.dic_surf_mcnp[k])
-                    ok = ok and entry is not None
-                    news.append((k, entry))
-                tree1 = rec.tree(out)
-                if ok and tree1 is not None:
-                    rec.records.append((
-                        [[float(v) for v in t] for t in trcls], before[0],
-                        key0, before[1], tree1, conv.new_surf_key, news))
+            try:
+                if before is not None and trcls:
+                    news = []
+                    ok = True
+                    for k in range(conv.new_surf_key, key0, -1):
+                        entry = rec.entry(conv.dic_surf_mcnp[k])
+                        ok = ok and entry is not None
+                        news.append((k, entry))
+                    tree1 = rec.tree(out)
+                    if ok and tree1 is not None:
+                        rec.records.append((
+                            [[float(v) for v in t] for t in trcls],
+                            before[0], key0, before[1], tree1,
+                            conv.new_surf_key, news))
+            except Exception:     # pylint: disable=broad-except
+                rec.errors += 1
             return out
         CC.CellConversion.apply_trcl = wrapped
         return self
@@ -2248,18 +2334,22 @@ def sweep_decks(res, rng, n):
             deck['cells'].append({'id': 3, 'mat': 0, 'rho': None,
                                   'expr': ('s', -(1000 + moved[0][0]['id'])),
                                   'imp': {'n': 0}, 'u': 0})
-        status, detail, text = check_deck(deck, rng, 120)
+        opts = rng.choice(OPTION_SETS) if rng.random() < 0.5 else []
+        status, detail, text = check_deck(deck, rng, 120, opts)
         classes = deck_classes(deck, moved)
         res.seen(text)
         res.count(f'deck:{mode}:{status}')
+        res.count('deck-options:' + (' '.join(opts) or 'default'))
         if status == 'ok':
             ok += 1
             res.sample({'deck': text}, limit=3)
             continue
         cls = None
         res.violation('impl-violation',
-                      f'deck ({mode}) {status}: {detail}',
-                      {'input': {'deck': text}, 'mode': mode,
+                      f'deck ({mode}; options {" ".join(opts) or "default"}) '
+                      f'{status}: {detail}',
+                      {'input': {'deck': text, 'options': list(opts)},
+                       'mode': mode,
                        'classes': sorted(classes)}, cls=cls,
                       found_input=True)
     res.obligation(f'sweep: {n} probe decks converted and compared with the '
